@@ -202,6 +202,8 @@ struct SolverCfg {
     // between two solves does (re-applying every option would mask state that setup()/solve() corrupt in the object)
     void applyChanged(GMGPolar& s, const SolverCfg& prev) const
     {
+        if (grid_kind > 0)
+            (void)gridFiles(); // the two files hold this configuration's grid before any setup()
         if (grid_kind != prev.grid_kind || (grid_kind > 0 && (R0 != prev.R0 || Rmax != prev.Rmax)) ||
             (grid_kind == 6 && (nr_exp != prev.nr_exp || ntheta_exp != prev.ntheta_exp || aniso != prev.aniso || div != prev.div ||
                                 alpha_jump != prev.alpha_jump))) {
@@ -253,16 +255,26 @@ struct SolverCfg {
                                            (grid_kind == 6 ? "/" + std::to_string(nr_exp) + "/" + std::to_string(ntheta_exp) + "/" + std::to_string(aniso) +
                                                                  "/" + std::to_string(div) + "/" + KVnum(alpha_jump)
                                                            : std::string())));
+        // One pair of file names per process, rewritten whenever another grid is asked for: a user's refinement loop writes
+        // every grid into the same two files, so "the file names did not change" must not be taken for "the grid did not
+        // change". (Files are read by setup() only, and every harness applies a configuration right before it calls setup().)
         const char* t = getenv("TMPDIR");
-        const std::string base = std::string(t ? t : "/tmp") + tag;
+        char fixed[96];
+        snprintf(fixed, sizeof fixed, "/verif_grid_%ld", (long)getpid());
+        const std::string base = std::string(t ? t : "/tmp") + fixed;
         const std::string fr = base + "_r.txt", ft = base + "_t.txt";
         static std::vector<std::string> written;
-        if (std::find(written.begin(), written.end(), fr) == written.end()) {
-            if (written.empty())
+        static std::string currentKey;
+        if (currentKey != tag) {
+            currentKey = tag;
+            if (written.empty()) {
+                written.push_back(fr);
+                written.push_back(ft);
                 atexit([] {
                     for (auto& f : written)
                         std::remove(f.c_str());
                 });
+            }
             std::vector<double> r(nr), a(nt + 1);
             if (grid_kind == 6) {
                 // 6: the grid this configuration's generator options describe, written out and loaded back (the write-then-load
@@ -311,8 +323,6 @@ struct SolverCfg {
             for (double v : a)
                 fprintf(f, "%.17g\n", v);
             fclose(f);
-            written.push_back(fr);
-            written.push_back(ft);
         }
         return {fr, ft};
     }
